@@ -8,6 +8,8 @@ stdout: last line = JSON list of observations, one per case:
            the content of the file they point to)
   valid, full, mainr, subs   the oracle the model needs, measured on the real validate / serialiser
            BEFORE save is called and before the call-counting fault is installed
+  alias    the target path was given in a non-normal form (case["via"]: ./name, ../out/name, doubled slash,
+           through a symbolic link)
   texts    text-id -> text (id 0 is the empty text)
 Faults are injected from this process only (values put into cfg, a patched jsonargparse._core.dump_using_format,
 a removed source file); nothing in the implementation tree is touched.
@@ -124,7 +126,7 @@ def snapshot(d, intern):
 
 
 def run_case(case):
-    root = tempfile.mkdtemp(prefix="jv_c18_")
+    root = os.path.realpath(tempfile.mkdtemp(prefix="jv_c18_"))  # "plain" targets must be in normal form
     cwd0 = os.getcwd()
     texts = [""]
     index = {"": 0}
@@ -235,7 +237,27 @@ def run_case(case):
         mainr = attempt(render_main)
 
         # ---- the call under test
-        target = os.path.join(outd, case["main"]) if case["dir_ok"] else os.path.join(outd, "no_such_dir", case["main"])
+        # the form in which the target path is given: "plain" = <dir>/<name> as the OS reports the directory,
+        # "dot" = ./<name> from inside the directory, "dotdot" = ../out/<name>, "slash" = doubled slash,
+        # "link" = through a symbolic link to the directory
+        via = case.get("via", "plain")
+        if not case["dir_ok"]:
+            target = os.path.join(outd, "no_such_dir", case["main"])
+        elif via == "plain":
+            target = os.path.join(outd, case["main"])
+        elif via == "dot":
+            os.chdir(outd)
+            target = "./" + case["main"]
+        elif via == "dotdot":
+            os.chdir(outd)
+            target = "../out/" + case["main"]
+        elif via == "slash":
+            target = outd + "//" + case["main"]
+        elif via == "link":
+            os.symlink(outd, os.path.join(root, "lnk"))
+            target = os.path.join(root, "lnk", case["main"])
+        else:
+            raise SystemExit("unknown via %r" % via)
         before = snapshot(outd, intern)
         calls = [0]
         real = core.dump_using_format
@@ -274,7 +296,7 @@ def run_case(case):
         reparse = None
         if res == "ok":
             try:
-                cfg2 = parser.parse_path(target, with_meta=False).clone()
+                cfg2 = parser.parse_path(os.path.join(outd, case["main"]), with_meta=False).clone()
                 want = strip_meta(cfg).clone()
                 for s in subs:
                     if s["it"]["kind"] == "pathc":
@@ -288,7 +310,8 @@ def run_case(case):
                 reparse = False
                 exc = "reparse:" + type(e).__name__
         return {"res": res, "exc": exc, "before": before, "after": after, "reparse": reparse, "valid": valid,
-                "full": full, "mainr": mainr, "subs": sub_out, "texts": texts, "calls": calls[0]}
+                "full": full, "mainr": mainr, "subs": sub_out, "texts": texts, "calls": calls[0],
+                "alias": bool(case["dir_ok"] and via != "plain")}
     finally:
         os.chdir(cwd0)
         shutil.rmtree(root, ignore_errors=True)
